@@ -70,6 +70,16 @@ def gen_cases(rng, tier):
         src = [c for k, c in enumerate(src) if k % 4 == 0 or ":bye" in c[4] or ":prov" in c[4]][:80]
     for k, c in enumerate(src):
         cases.append(["ua%d" % k, "c11", "ua", c[2], c[3], c[4], c[5]])
+    # the caller's side through the Initiator: dialogs created by a 2xx directly and early dialogs confirmed by a 2xx, with Record-Route
+    # lists of one to three entries in every line layout; a request created inside the new dialog is probed
+    P13 = importlib.import_module("props.c13")
+    src = [c for c in P13.gen_cases(rng.__class__(rng.randrange(1 << 30)), "quick") if c[2] == "uac" and not c[0].startswith("nc")
+           and re.search(r"resp:2\d\d:\w+:[0-9a-f]*%s" % "Record-Route".encode().hex(), c[4])]
+    early = [c for c in src if re.search(r"resp:1[1-9]\d:(\w+):.*resp:2\d\d:\1:", c[4])]
+    direct = [c for c in src if c not in early]
+    pick = early[:40] + direct[:20] if tier == "quick" else src
+    for k, c in enumerate(pick):
+        cases.append(["uc%d" % k, "c11", "ua", c[2], c[3] + ";probe", c[4], c[5]])
     return cases
 
 
@@ -100,6 +110,23 @@ def _ua_oracle(case, impl):
             return ["the %d response to the dialog-creating INVITE carries no To-tag (script %s)" % (code, case[5])]
     if len(set(t for _, t in tags)) > 1:
         return ["responses to the dialog-creating INVITE carry different To-tags: %r" % sorted(set(tags))]
+    # caller side: the request created inside the new dialog goes to the Contact of the peer's response along the reversed Record-Route
+    for m in re.finditer(r"probe:(\w+):uri=([^/]*)/route=(\S*?)@\d+", impl):
+        tag, uri, route = m.groups()
+        ok = set()
+        for st in [x for x in case[5].split(",") if x]:
+            a = st.split(":")
+            if len(a) >= 5 and a[1] == "resp" and a[3] == tag and int(a[2]) > 100:
+                extra = bytes.fromhex(a[4]).decode("utf-8", "replace") if a[4] else ""
+                rr = []
+                for line in extra.split("\r\n"):
+                    if line.lower().startswith("record-route:"):
+                        rr += [x.strip().strip("<>") for x in line.split(":", 1)[1].split(",")]
+                ok.add("+".join(reversed(rr)))
+        if ok and route not in ok:
+            return ["a request created in the caller's dialog with %s carries Route %r, not the reversed Record-Route of the peer's response (%r)" % (tag, route, sorted(ok))]
+        if "peer-%s@" % tag not in uri:
+            return ["a request created in the caller's dialog with %s goes to %s, not to the Contact of the peer's response" % (tag, uri)]
     return []
 
 
